@@ -255,7 +255,51 @@ pub fn run_engine<E: Engine + 'static>(engine: Arc<E>, tier: Tier, seed: u64) ->
     let executed = Arc::new(AtomicU64::new(0));
     let claimed = Arc::new(AtomicBool::new(false));
     let mut handles = Vec::new();
+    // watchdog: a case that does not come back is reported as inconclusive (exit 2), never as
+    // a violation; the case is saved so that it can be replayed under a debugger
+    let slots: Arc<Vec<Mutex<Option<(Instant, String)>>>> =
+        Arc::new((0..threads).map(|_| Mutex::new(None)).collect());
+    {
+        let slots = slots.clone();
+        let prop = prop.clone();
+        let limit = std::env::var("VERIF_HANG_SECS")
+            .ok()
+            .and_then(|v| v.parse().ok())
+            .unwrap_or(600u64);
+        std::thread::Builder::new()
+            .name("watchdog".into())
+            .spawn(move || loop {
+                std::thread::sleep(std::time::Duration::from_secs(2));
+                for slot in slots.iter() {
+                    let hung = {
+                        let g = slot.lock().unwrap();
+                        match &*g {
+                            Some((t0, case)) if t0.elapsed().as_secs() > limit => {
+                                Some(case.clone())
+                            }
+                            _ => None,
+                        }
+                    };
+                    if let Some(case) = hung {
+                        let dir = Path::new(VERIF_ROOT).join("replays").join(&prop).join("hang");
+                        let _ = std::fs::create_dir_all(&dir);
+                        let body = format!(
+                            "{{\"property\":\"{prop}\",\"seed\":{seed},\"signature\":\"case did not finish\",\"detail\":\"watchdog: no result within {limit} s\",\"case\":{case}}}"
+                        );
+                        let path = dir.join(format!("{:016x}.json", hash_str(&body)));
+                        let _ = std::fs::write(&path, body);
+                        println!(
+                            "INCONCLUSIVE: property={prop} a generated case did not finish within {limit} s (hang in the code under test or in the harness); case saved to {}",
+                            path.display()
+                        );
+                        std::process::exit(2);
+                    }
+                }
+            })
+            .unwrap();
+    }
     for t in 0..threads {
+        let slots = slots.clone();
         let engine = engine.clone();
         let stats = stats.clone();
         let stop = stop.clone();
@@ -288,7 +332,10 @@ pub fn run_engine<E: Engine + 'static>(engine: Arc<E>, tier: Tier, seed: u64) ->
                         return Ok(());
                     }
                     let t0 = Instant::now();
+                    *slots[t].lock().unwrap() =
+                        Some((t0, serde_json::to_string(&case).unwrap_or_default()));
                     let out = engine.run(&case);
+                    *slots[t].lock().unwrap() = None;
                     if timing {
                         let el = t0.elapsed().as_secs_f64();
                         if el > 0.5 {
